@@ -328,6 +328,10 @@ def read_response(s):
         for ln in lines[1:]:
             k, _, v = ln.partition(b":")
             hdrs[k.strip().lower()] = v.strip()
+        info["headers"] = {k.decode("latin-1"): v.decode("latin-1") for k, v in hdrs.items()}
+        if status in (204, 304) or 100 <= status < 200:
+            info["complete"] = True            # no body by definition
+            return (status, b"", info)
         if b"content-length" in hdrs:
             n = int(hdrs[b"content-length"])
             while len(rest) < n:
